@@ -229,7 +229,7 @@ fn gen_plan(seed: u64) -> MacroPlan {
                 form,
                 with_registry: r.chance(50),
                 trailing: r.chance(50),
-                args: Args { name: format!("c20_{:x}_{}_{}", tag, t, k), help: r.pick(&["help", "h é \"q\""]).to_string(), consts, labels, buckets, preset_vars },
+                args: Args { name: format!("c20_{:x}_{}_{}", tag, t, k), help: r.pick(&["help", "h é \"q\"", "help", " padded ", "tail\n", "\thead", "  "]).to_string(), consts, labels, buckets, preset_vars },
                 again: r.chance(30),
                 bump: 1 + r.below(100) as u32,
             });
